@@ -10,7 +10,8 @@ RULE = ("one run = one swarm-generated grammar (Boolean weights, or float weight
         "presented under 2-4 schedules (rule permutation, renaming, ChaosSet/ChaosHeap seeds, counter start) "
         "to BoolCFGLM(alg=earley) and BoolCFGLM(alg=cky); every context over V+EOS up to length 3 plus viable "
         "walks and corruptions, queried in a seeded shuffled order on one shared object; mask compared with "
-        "an independent Earley recogniser on the productive sub-grammar; non-trivial = language non-empty; "
+        "an independent Earley recogniser on the productive sub-grammar, plus membership through the chain rule "
+        "lm(x+EOS) > 0; a third of the runs first build another vocabulary's LM in the same process; non-trivial = language non-empty; "
         "distinct = distinct (grammar, schedule) digests")
 COMPONENTS = {
     "real": ["BoolCFGLM, add_EOS, map_values, prefix_grammar (CFG @ prefix transducer), Earley, CKYLM / "
